@@ -144,6 +144,97 @@ def corpus():
 
 
 # ---------------------------------------------------------------------------
+# round 3: histories written for the public layer (they run at both layers like all others):
+# the flush before the old write is a READ of every kind the Bucket class has, the Bucket
+# object is new or reused, bucket-level calls of Datastore come in between, a second store
+# is alive beside the one under test
+
+READS = (("get_events", "b", 1), ("get_events", "b", -1), ("get_events", "b", 5, 1), ("get_event", "b", 1),
+         ("get_eventcount", "b"), ("get_eventcount", "b", 1), ("get_event", "b", 999))
+NO_FLUSH_READS = (("get_metadata", "b"), ("buckets",), ("get_events", "b", 0))
+API_GAPS = (9_999_000, 10 * S, 10_000_001, 10_600_000, 30 * S, DAY + 4 * S)
+
+
+def _companion(dt, *call):
+    return (dt, 0, ("companion", tuple(call)))
+
+
+def api_corpus():
+    out = []
+
+    def add(name, h, lazy=True):
+        out.append((name, lazy, h))
+
+    n = 0
+    for gap in API_GAPS:
+        for kind in KINDS:
+            n += 1
+            def h_wrapped(r, gap=gap, kind=kind, read=READS[n % len(READS)], quiet=NO_FLUSH_READS[n % 3]):
+                yield _create("b")
+                yield (MS, 0, ("insert_many", "b", (), 4))
+                yield (MS, 0, read)                                    # a read: "the previous flush"
+                ids = r.event_ids("b")
+                yield (gap, 0, _spec(kind, ids))                       # one write, `gap` later
+                yield (MS, 0, quiet)                                   # no flush
+                yield (3 * S, 0, ("insert_one", "b"))                  # young
+                yield (S, 0, read)                                     # flush
+                yield (gap, 0, _spec(kind, ids[1:]))                   # again, Bucket object reused
+                yield _reopen(S, "flush", 0)
+                yield (gap, 0, _spec(kind, ids[2:] + ids[:2]))         # first use of ds["b"] of a new Datastore
+                yield (gap, 0, ("insert_many", "b", (ids[3],), 2))
+            add(f"wrapped-{kind}-{gap}", h_wrapped)
+
+    def h_bucket_calls(r):
+        # Datastore-level calls between the writes: every one of them is a flush
+        yield _create("a")
+        yield _create("b")
+        yield from _ins("b", 3)
+        yield (12 * S, 0, ("update_bucket", "a", 1))
+        yield (10_000_001, 0, ("insert_one", "b"))
+        yield (4 * S, 0, ("insert_one", "a"))
+        yield (S, 0, ("delete_bucket", "a"))
+        yield (11 * S, 0, ("replace_last", "b"))
+        yield (MS, 0, ("insert_one", "a"))                             # gone: the call raises
+        yield _create("a")                                             # same id again: a new Bucket object
+        yield (11 * S, 0, ("insert_one", "a"))
+        yield (4 * S, 0, ("create_bucket", "a"))                       # duplicate: raises
+        yield (7 * S, 0, ("insert_many", "a", (), 3))
+        yield (11 * S, 0, ("update_bucket", "b", None))                # no field: raises before any statement
+        yield (MS, 0, ("delete", "b", 1))
+        yield (11 * S, 0, ("get_metadata", "nope"))
+        yield (MS, 0, ("replace", "b", 2))
+        yield (11 * S, 0, ("insert_many_bad", "b", (), 2))
+        yield (11 * S, 0, ("insert_one", "b"))
+    add("datastore-level-calls-between-writes", h_bucket_calls)
+
+    # a second store alive in the process: its flushes, bursts and bucket calls are not ours
+    for kind in KINDS:
+        def h_second(r, kind=kind):
+            yield _create("b")
+            yield (MS, 0, ("insert_many", "b", (), 4))
+            yield (MS, 0, ("get_eventcount", "b"))
+            ids = r.event_ids("b")
+            yield _companion(S, "create_bucket", "b")
+            yield _companion(S, "create_bucket", "a")
+            yield _companion(S, "insert_many", "b", 3)
+            yield _companion(8 * S, "get_eventcount", "b")             # flush of the OTHER store, 11 s after ours
+            yield (S, 0, _spec(kind, ids))                             # 12 s after our flush
+            yield (2 * S, 0, ("insert_one", "b"))                      # young
+            for _ in range(55):
+                yield _companion(100 * MS, "insert_one", "b")          # the other store crosses its count threshold
+            yield _companion(MS, "commit")
+            yield (3 * S, 0, _spec(kind, ids[1:]))                     # ours: 5 s old only at this point
+            yield _companion(6 * S, "delete_bucket", "a")
+            yield _companion(MS, "get_events", "b", 1)
+            yield (MS, 0, ("replace_last", "b"))                       # > 10 s after our last flush
+            yield _reopen(S, "crash", 0)
+            yield _companion(9 * S, "insert_one", "b")
+            yield (2 * S, 0, _spec(kind, ids[2:] + ids[:2]))           # 11 s after opening
+        add(f"second-store-alive-{kind}", h_second)
+    return out
+
+
+# ---------------------------------------------------------------------------
 # seeded random sessions
 
 SHORT = [0, 1, MS, MS, 500 * MS, 3 * S, 4 * S, 9_999_000, 10 * S, 10_000_001, 10_001_000, 12 * S, 30 * S]
@@ -190,6 +281,12 @@ def random_session(rng, profile):
                     sp = _spec(w, ids) if len(ids) >= 2 else ("insert_one", b)
                     yield (dt, tick, (sp[0], b) + tuple(sp[2:]))
                     continue
+            if rng.random() < 0.06:        # the second store of the process does something
+                yield (dt, 0, ("companion", rng.choice([("create_bucket", "b"), ("insert_one", "b"), ("insert_one", "b"),
+                                                        ("insert_many", "b", rng.choice([1, 20, 51])), ("get_eventcount", "b"),
+                                                        ("get_events", "b", 1), ("replace_last", "b"), ("commit",),
+                                                        ("delete_bucket", "b")])))
+                continue
             ids = r.event_ids(b) if b in have else []
             some_id = (lambda: rng.choice(ids)) if ids and rng.random() < 0.9 else (lambda: rng.randrange(1, 300))
             y = rng.random()
@@ -211,9 +308,9 @@ def random_session(rng, profile):
             elif y < 0.88:
                 yield (dt, tick, ("delete_bucket", b))
             elif y < 0.91:
-                yield (dt, tick, ("get_events", b, rng.choice([0, 0, 1, -1])))
+                yield (dt, tick, ("get_events", b, rng.choice([0, 0, 1, -1])) + rng.choice([(), (), (1,)]))
             elif y < 0.93:
-                yield (dt, tick, ("get_eventcount", b))
+                yield (dt, tick, ("get_eventcount", b) + rng.choice([(), (1,)]))
             elif y < 0.95:
                 yield (dt, tick, ("get_event", b, some_id()))
             elif y < 0.98:
